@@ -168,7 +168,105 @@ def run_trajectory(case):
     return res
 
 
-ROUTINES = {"fixed_grid": lambda c: run_fixed_grid(c)[0], "trajectory": run_trajectory}
+def run_error(case):
+    """Acceptance quantity of the error estimators along a manually stepped trajectory."""
+    kind = case["kind"]
+    ssm = gimpl.ssm_of(kind)
+    vf = make_vf(case)
+    prior = make_prior(case, ssm)
+    solver, constraint = make_solver(case, ssm, vf)
+    e = case["error"]
+    norm = pdq.error_norm_scale_then_rms() if e["norm"] == 0 else pdq.error_norm_rms_then_scale()
+    if e["est"] == "residual":
+        est = pdq.error_residual_std(constraint=constraint, error_norm=norm, re_linearize_before_error=e["relin"],
+                                     error_per_unit_step=e["per_unit"])
+    else:
+        est = pdq.error_state_std(constraint=constraint, error_norm=norm, re_linearize_before_error=e["relin"],
+                                  derivative_idx=e["idx"], error_per_unit_step=e["per_unit"])
+    grid = case["grid"]
+    damp = case["damp"]
+    state = solver.init(t=jnp.asarray(grid[0]), u=prior, damp=damp)
+    estate = est.init_error()
+    states = [encode_state(state, case)]
+    powers = []
+    for i in range(len(grid) - 1):
+        dt = grid[i + 1] - grid[i]
+        proposed = solver.step(state, dt=dt, damp=damp)
+        power, estate = est.estimate_error_norm(estate, state, proposed, dt=dt, atol=e["atol"], rtol=e["rtol"], damp=damp)
+        powers.append(float(power))
+        state = proposed
+        states.append(encode_state(state, case))
+    return {"states": states, "powers": powers}
+
+
+def make_error(case, constraint):
+    e = case.get("error") or {"est": "residual", "norm": 0, "relin": False, "per_unit": False, "idx": 0}
+    norm = pdq.error_norm_scale_then_rms() if e["norm"] == 0 else pdq.error_norm_rms_then_scale()
+    if e["est"] == "residual":
+        return pdq.error_residual_std(constraint=constraint, error_norm=norm, re_linearize_before_error=e["relin"],
+                                      error_per_unit_step=e["per_unit"])
+    return pdq.error_state_std(constraint=constraint, error_norm=norm, re_linearize_before_error=e["relin"],
+                               derivative_idx=e["idx"], error_per_unit_step=e["per_unit"])
+
+
+def solution_summary(sol, case, with_full=False):
+    kind = case["kind"]
+    out = []
+    for blocks in batched_normal_blocks(sol.u, kind):
+        out += gimpl.flat_blocks_normal(blocks)
+    T = len(np.asarray(sol.t))
+    osc = np.asarray(sol.output_scale, dtype=np.float64)
+    res = {"out": out, "t": np.asarray(sol.t, dtype=np.float64).tolist(),
+           "output_scale": osc.reshape(osc.shape[0], -1).tolist() if osc.ndim > 0 else [[float(osc)]],
+           "num_steps": np.asarray(sol.num_steps).tolist()}
+    return res
+
+
+def run_adaptive(case):
+    """solve_adaptive_save_at / terminal values / save-every-step with the real controllers."""
+    kind = case["kind"]
+    ssm = gimpl.ssm_of(kind)
+    vf = make_vf(case)
+    prior = make_prior(case, ssm)
+    solver, constraint = make_solver(case, ssm, vf)
+    err = make_error(case, constraint)
+    a = case["adaptive"]
+    ctrl = None
+    if a.get("control") == "pi":
+        ctrl = ivpsolve.control_proportional_integral()
+    elif a.get("control") == "i":
+        ctrl = ivpsolve.control_integral()
+    mode = a.get("mode", "save_at")
+    kw = dict(atol=a["atol"], rtol=a["rtol"], dt0=a["dt0"], damp=case["damp"])
+    if "eps" in a:
+        kw["eps"] = a["eps"]
+    if mode == "save_at":
+        solve = ivpsolve.solve_adaptive_save_at(solver=solver, error=err, control=ctrl, clip_dt=a.get("clip", False), warn=False)
+        fn = lambda: solve(prior, save_at=arr(a["save_at"]), **kw)  # noqa: E731
+        sol = jax.jit(fn)() if a.get("jit", True) else fn()
+        return solution_summary(sol, case)
+    if mode == "terminal":
+        solve = ivpsolve.solve_adaptive_terminal_values(solver=solver, error=err, control=ctrl, clip_dt=a.get("clip", True))
+        sol = jax.jit(lambda: solve(prior, t0=a["save_at"][0], t1=a["save_at"][-1], **kw))()
+        sol = jax.tree_util.tree_map(lambda s_: s_[None, ...], sol)
+        return solution_summary(sol, case)
+    if mode == "every_step":
+        solve = test_util.solve_adaptive_save_every_step(solver=solver, error=err, control=ctrl, clip_dt=a.get("clip", False))
+        sol = solve(prior, t0=a["save_at"][0], t1=a["save_at"][-1], **kw)
+        res = solution_summary(sol, case)
+        if a.get("offgrid"):
+            ts = arr(a["offgrid"])
+            og = jax.vmap(lambda t: solver.offgrid_marginals(t, solution=sol))(ts)
+            o = []
+            for blocks in batched_normal_blocks(og, kind):
+                o += gimpl.flat_blocks_normal(blocks)
+            res["offgrid"] = o
+        return res
+    raise ValueError(mode)
+
+
+ROUTINES = {"fixed_grid": lambda c: run_fixed_grid(c)[0], "trajectory": run_trajectory, "error": run_error,
+            "adaptive": run_adaptive}
 
 
 def main():
